@@ -211,13 +211,22 @@ def props_check(proj, pid):
 # ------------------------------------------------------------------ Go harness
 
 def build_harness(cmd, tags="verif"):
-    """Rebuild harness/cmd/<cmd> against /repo's working tree. Returns (path|None, log)."""
-    bind = os.path.join(ROOT, ".work", "bin")
+    """Rebuild harness/cmd/<cmd> against the repository's working tree (/repo, or $VERIF_REPO for
+    experiments on a scratch worktree). Returns (path|None, log)."""
+    key = "" if REPO == "/repo" else "-" + hashlib.sha1(REPO.encode()).hexdigest()[:8]
+    bind = os.path.join(ROOT, ".work", "bin" + key)
     os.makedirs(bind, exist_ok=True)
     out_bin = os.path.join(bind, cmd)
+    extra = []
+    if key:
+        mod = open(os.path.join(HARNESS, "go.mod")).read().replace("=> /repo", "=> " + REPO)
+        mf = os.path.join(bind, "go.mod")
+        open(mf, "w").write(mod)
+        shutil.copy(os.path.join(HARNESS, "go.sum"), os.path.join(bind, "go.sum"))
+        extra = ["-modfile=" + mf]
     with open(os.path.join(bind, ".lock-" + cmd), "w") as lk:
         fcntl.flock(lk, fcntl.LOCK_EX)
-        rc, out = sh([GO, "build", "-tags", tags, "-o", out_bin, "./cmd/" + cmd], cwd=HARNESS, env=GOENV, timeout=1500)
+        rc, out = sh([GO, "build"] + extra + ["-tags", tags, "-o", out_bin, "./cmd/" + cmd], cwd=HARNESS, env=GOENV, timeout=1500)
     if rc != 0:
         return None, out
     return out_bin, out
